@@ -7,7 +7,7 @@ import (
 func init() {
 	// ------------------------------------------------------------------ C01 (structural clauses; value clauses are added by absint-based rules)
 	register(&Prop{
-		ID: "C01", Level: "other", Technique: "static effect analysis (receiver never read before written on any CFG path incl. zero-iteration paths; accumulators defined before use; inputs read before the receiver is reset) + abstract interpretation of digit recoding and table selection",
+		ID: "C01", Level: "other", Technique: "static effect analysis (receiver never read before written on any CFG path incl. zero-iteration paths; accumulators defined before use; inputs read before the receiver is reset) + abstract interpretation over go/ssa: the drivers in a free-abelian-group domain for enumerated term counts (bound decided by a parametricity analysis of the term index, N-UNIFORM), digit recodings, table contents and selectors; unknown point helpers recognised by evaluation against the group law",
 		Explanation: "Structural clauses: for the five scalar-multiplication entry points the receiver's incoming value is never read on any CFG path — including the zero-iteration path of each range loop, which is the n=0 call — every normal return returns the receiver, every local accumulator/table of a type whose zero value is invalid is written before it is read, and with q/A/points[i] aliased to the receiver no input is read after the first receiver write. Value clauses (abstract interpretation): GROUP — each driver leaves the receiver at Σ_j [Σ_i digit_{j,i}·base^i]·P_j as a polynomial identity in digit symbols, for fresh/used/aliased receivers and n up to 3 (2 for the variable-time multi-scalar routine), the variable-time ones with their data-dependent digit branches joined; TABLE/SELECT — table contents (i+1)Q and (2i+1)Q and exact selection for all digits; RECODE — Σ d_i·16^i = value with d_i ∈ [−8,8]; NAF — the width-w recoding preserves S = (k mod 2^pos) − carry·2^pos on every reachable (position, carry) partition for every value of the scalar bits it inspects, writes only odd digits below 2^(w−1), and exits with carry 0, hence Σ n_i·2^i = k for k < 2^253; NAF-WIDTH — widths are constants and every table indexed by width-w digits has at least 2^(w−2) entries. NOT decided: larger term counts (structural rules only), torsion behaviour beyond the group law of C02, that every Scalar is < l (C07/C08).",
 		Assumptions: []string{"an incoming-value read of the receiver is a dependence on it: no later operation masks it"},
 		TrustedBase: trustedCommon,
